@@ -308,7 +308,19 @@ def r5(ctx):
             n += 1
             ctx.check(vf.expr(c.fn, c.args[0]) == ("arg", 0), "C03.R5", "%s<-%s@%s" % (callee, c.fn.name, _ord(c.fn, c)), c.loc(),
                       "called for the own socket", key="C03.R5:%s:%s" % (callee, c.fn.name))
-    ctx.floor("C03.R5", n, 14)
+    # the update / undo helpers work on the table they are given (the live table, or the shadow table during a reload), never on
+    # a table they pick themselves
+    TABLE_OPS = {"pfx_table_add", "pfx_table_remove", "spki_table_add_entry", "spki_table_remove_entry", "pfx_table_src_remove", "spki_table_src_remove"}
+    for helper in sorted(UPDATE | UNDO):
+        hf = pdb.fn(helper)
+        ctx.touch(hf)
+        ops = [c for c in hf.calls() if c.callee in TABLE_OPS]
+        ctx.floor("C03.R5", len(ops), 2)
+        for c in ops:
+            n += 1
+            ctx.check(vf.expr(hf, c.args[0]) == ("arg", 1), "C03.R5", "%s:%s-on-given-table@%s" % (helper, c.callee, _ord(hf, c)), c.loc(),
+                      "%s(%s, ...): the table parameter is arg1" % (c.callee, vf.show(vf.expr(hf, c.args[0]))), key="C03.R5:%s:%s:table" % (helper, c.callee))
+    ctx.floor("C03.R5", n, 22)
 
 
 # deliberate, confirmed exceptions to "status results are consulted": callee -> (allowed callers or None, reason)
@@ -328,10 +340,52 @@ IGNORABLE = {
 }
 
 
+# call sites where a failure code is deliberately not told from success: (caller, callee) -> (codes, reason)
+SAME_AS_SUCCESS = {
+    ("spki_table_notify_diff", "spki_table_remove_entry"): ([-1], "SPKI_ERROR needs tommy_list_remove_existing to return NULL, which it never "
+                                                            "does (it returns its argument's payload); only NOT_FOUND decides the notification"),
+}
+
+
+def _cmp(pred, a, b):
+    ua, ub = a % 2 ** 32, b % 2 ** 32
+    return {"eq": a == b, "ne": a != b, "slt": a < b, "sle": a <= b, "sgt": a > b, "sge": a >= b,
+            "ult": ua < ub, "ule": ua <= ub, "ugt": ua > ub, "uge": ua >= ub}[pred]
+
+
+def _separates(f, ref, v, seen=None, depth=0):
+    """does a comparison reached from `ref` tell the value v from 0 (or is the value handed on to somebody else)?"""
+    seen = set() if seen is None else seen
+    if ref in seen or depth > 6:
+        return False
+    seen.add(ref)
+    for u in f.uses(ref):
+        if u.op == "icmp":
+            a_is = u["a"] == ref
+            oe = vf.expr(f, u["b"] if a_is else u["a"])
+            if oe[0] != "c" or not isinstance(oe[1], int):
+                return True         # compared with something computed: handed on
+            tv = _cmp(u["pred"], v, oe[1]) if a_is else _cmp(u["pred"], oe[1], v)
+            t0 = _cmp(u["pred"], 0, oe[1]) if a_is else _cmp(u["pred"], oe[1], 0)
+            if tv != t0:
+                return True
+        elif u.op == "switch":
+            cases = {k: d for k, d in u["cases"]}
+            if cases.get(v, u["default"]) != cases.get(0, u["default"]):
+                return True
+        elif u.op in ("sext", "zext", "trunc", "phi", "select", "bitcast"):
+            if _separates(f, u.ref, v, seen, depth + 1):
+                return True
+        else:
+            return True             # returned, stored or passed on: the decision is made elsewhere (and checked there)
+    return False
+
+
 def r6(ctx, retsets):
     pdb = ctx.pdb
     ctx.rule("C03.R6", "no status result of a library function is dropped: every call whose callee returns a value has its "
-             "result consulted, except the frozen inventory of deliberate best-effort / environment / diagnostic sites")
+             "result consulted, except the frozen inventory of deliberate best-effort / environment / diagnostic sites; and where a "
+             "result is branched on, every failure code in the callee's computed return set is told from success")
     n = 0
     for f in pdb.all_functions():
         if f.unit.startswith("third-party"):
@@ -359,6 +413,35 @@ def r6(ctx, retsets):
                               "result of %s is dropped in %s" % (c.callee, f.name), key="C03.R6:%s:%s" % (f.name, c.callee))
     ctx.floor("C03.R6", n, 150)
     ctx.note("%d value-returning library calls examined" % n)
+    # ... and a consulted result is consulted completely: no failure code the callee can return (computed return set) is
+    # indistinguishable from success at a site that branches on the result
+    m = 0
+    for f in pdb.all_functions():
+        if not f.unit.startswith("rtrlib/"):
+            continue
+        for c in f.calls():
+            if not c.callee:
+                continue
+            g = pdb.resolve(f, c.callee)
+            if g is None:
+                continue
+            S = retsets.get((g.unit, g.name))
+            if not S or S == "TOP" or 0 not in S or not f.uses(c.ref):
+                continue
+            neg = sorted(v for v in S if v < 0)
+            if not neg:
+                continue
+            m += 1
+            blind = [v for v in neg if not _separates(f, c.ref, v)]
+            ex = SAME_AS_SUCCESS.get((f.name, c.callee))
+            if blind and ex and set(blind) <= set(ex[0]):
+                ctx.ok("C03.R6", "%s->%s:codes" % (f.name, c.callee), c.loc(), "code(s) %s deliberately treated like success: %s" % (blind, ex[1]))
+            else:
+                ctx.check(not blind, "C03.R6", "%s->%s@%s:failure-codes-told-from-success" % (f.name, c.callee, _ord(f, c)), c.loc(),
+                          "callee can return %s; %s" % (sorted(S), ("code(s) %s take the same branches as success here" % blind) if blind else
+                                                        "every failure code is separated from 0 by a comparison, or the value is handed on"),
+                          key="C03.R6:%s:%s:codes" % (f.name, c.callee))
+    ctx.floor("C03.R6", m, 60)
 
 
 def check(ctx):
